@@ -80,8 +80,14 @@ def check(run, ctx):
     cpar = fd.node.args.args[1].arg
     lang_names = {t.id for n in ast.walk(fd.node) if isinstance(n, ast.Assign) for t in n.targets if isinstance(t, ast.Name)
                   and any(isinstance(x, ast.Name) and x.id == "language" for x in ast.walk(n.value)) and any(isinstance(x, ast.Name) and x.id == cpar for x in ast.walk(n.value))}
-    run.require(bool(lang_names), "SRPConfig.from_dict: no mapping derived from config[language]")
-    for key in ("max_methods", "max_loc"):
+    from . import shared as _sh
+    mut = _sh.param_mutations(fd, cpar)
+    if mut:
+        run.finding(T2, "SRPConfig.from_dict", f"config-mutated:{norm(mut[0])[:50]}", f"SRPConfig.from_dict changes the mapping it is given (`{norm(mut[0])[:80]}`): the orchestrator hands the same `srp` section to every file, so the thresholds of the first language with an override replace the general ones for every file linted after it", f"{fd.module.rel}:{mut[0].lineno}")
+        run.ok(T2, "from_dict (branch layout)", "not examined further: the finding above stands", nontrivial=False)
+    else:
+        run.require(bool(lang_names), "SRPConfig.from_dict: no mapping derived from config[language]")
+    for key in (() if mut else ("max_methods", "max_loc")):
         def reads(recv_names):
             return [c for c in ast.walk(fd.node) if isinstance(c, ast.Call) and call_name(c) == "get" and isinstance(c.func.value, ast.Name) and c.func.value.id in recv_names and c.args and isinstance(c.args[0], ast.Constant) and c.args[0].value == key]
         lang_read, sect_read = reads(lang_names), reads({cpar})
@@ -95,7 +101,7 @@ def check(run, ctx):
             run.ok(T2, f"from_dict[{key}]", "read at the language level with the section level as fallback, and at the section level when there is no override")
         else:
             run.finding(T2, "SRPConfig.from_dict", f"branch-asymmetry:{key}", f"{key} is not read at both the language level and the section level: per-language overrides would apply to one threshold only", fd.loc)
-    if top is not None:
+    if top is not None and not mut:
         test = ast.unparse(top.test)
         (run.ok(T2, "override condition", test) if test == "language and language in config" else run.finding(T2, "SRPConfig.from_dict", f"override-cond:{test}", "language overrides are not selected by `language in config`", fd.loc))
 
